@@ -75,7 +75,7 @@ Definition toks_of_pres (p : pres) : list tok :=
   | PTag t => [sym "tag"; TText (t_file_type t); TInt (t_file_number t); TInt (t_element_number t);
                toks_of_oz (t_pos_number t); toks_of_oz (t_sub_element t); TInt (t_address_field t);
                TInt (t_element_count t); TText (t_tag t)]
-  | PNone => [sym "none"]
+  | PNone | PStop => [sym "none"]
   | PExn e => [sym "exn"; TInt (exn_code e)]
   | PFuel => [sym "fuel"]
   end.
